@@ -184,8 +184,8 @@ theorem insertByT_perm (x : ℝ × Nat) (l : List (ℝ × Nat)) : (insertByT x l
   | cons a r ih =>
     unfold insertByT
     split_ifs
-    · exact List.Perm.refl _
     · exact (List.Perm.cons a ih).trans (List.Perm.swap _ _ _)
+    · exact List.Perm.refl _
 
 /-- sorting loses and invents nothing -/
 theorem sortByT_perm (l : List (ℝ × Nat)) : (sortByT l).Perm l := by
@@ -203,16 +203,16 @@ theorem insertByT_sorted (x : ℝ × Nat) (l : List (ℝ × Nat)) (h : l.Pairwis
     have h' := List.pairwise_cons.mp h
     unfold insertByT
     split_ifs with hx
-    · refine List.pairwise_cons.mpr ⟨?_, h⟩
-      intro b hb
-      rcases List.mem_cons.mp hb with rfl | hb
-      · exact hx.le
-      · exact hx.le.trans (h'.1 b hb)
     · refine List.pairwise_cons.mpr ⟨?_, ih h'.2⟩
       intro b hb
       rcases (insertByT_perm x r).mem_iff.mp hb |> List.mem_cons.mp with rfl | hb
-      · exact not_lt.mp hx
+      · exact hx.le
       · exact h'.1 b hb
+    · refine List.pairwise_cons.mpr ⟨?_, h⟩
+      intro b hb
+      rcases List.mem_cons.mp hb with rfl | hb
+      · exact not_lt.mp hx
+      · exact (not_lt.mp hx).trans (h'.1 b hb)
 
 /-- the list is ascending in the parameter -/
 theorem sortByT_sorted (l : List (ℝ × Nat)) : (sortByT l).Pairwise (fun a b => a.1 ≤ b.1) := by
